@@ -19,7 +19,9 @@ RULE = ("outer timeline (cold or hot; completing before/after the last inner, er
         "notifying synchronously inside subscribe), 5-tick grid so that an inner element and the arrival of the next inner often coincide; "
         "operators switch_latest, switch_map, switch_map_indexed, flat_map_latest with a mapper that may raise; optional dispose; the recorded "
         "global event list is replayed through the Lean machine, outputs (timed) and subscribe/unsubscribe effects compared per event in "
-        "same-instant order; non-trivial = at least two inners arrived or an inner terminated")
+        "same-instant order; oracle-only additions: re-entrant switches (a synchronously emitting inner whose element makes the consumer push the next "
+        "inner into the hot outer; the stale inner goes on and completes; outer completes before/after the latest inner) and two overlapping "
+        "subscriptions of one observable; non-trivial = at least two inners arrived or an inner terminated")
 ASSUMPTIONS = ["single-threaded / virtual-time execution: one run is one list of tagged events",
                "each element of the outer sequence is a distinct inner observable, the outer sequence does not notify inside subscribe"]
 TRUSTED_EXTRA = ["the logging cold/hot/sync sources of harness/props/comb_common.py as measuring instruments"]
@@ -29,10 +31,12 @@ LEVEL_TEXT = ("Lean theorems (arbitrary event lists, no bounds) on the trace mac
 "of generated real runs with overlapping inner lifetimes, stale pushes, same-instant arrivals, and comparing outputs and effects in order, plus a property-text oracle.")
 LEVEL_NOTE = ("Model = RxModel/Comb.lean + RxModel/CombHO.lean swM (latest id as `cur`, has_latest, is_stopped, Composite(outer, Serial inner)). All four theorems full: "
 "switch_only_latest and switch_completes_iff are stated against declarative folds over the delivered notifications (swSpec / swTStep+swRule: 'latest' = the most "
-"recently arrived inner), switch_unsub_prev_at_arrival gives the exact effect list of the arrival step, switch_stale_error_ignored holds for ANY state. Note: in "
-"single-threaded execution a stale inner is already unsubscribed, so its AutoDetachObserver drops its notifications before the `latest[0] == _id` tests are reached; "
-"removing those tests is therefore not observable by any single-threaded run (equivalent mutant) - the theorem covers them in the model. Stale notifications are "
-"generated with 'rude' hot sources that keep pushing after unsubscription.")
+"recently arrived inner), switch_unsub_prev_at_arrival gives the exact effect list of the arrival step, switch_stale_error_ignored holds for ANY state (it is the `latest[0] == _id` guard). "
+"LIMIT of the trace machine: a source that is still inside its own subscribe call cannot be disposed, so after a RE-ENTRANT switch (consumer feedback pushing the next "
+"inner into the outer from inside on_next) the stale inner's notifications really reach the operator; the flat machine closes a source at `unsub` and therefore never "
+"delivers them - these runs are NOT replayed through the model, they are oracle-only cases (feedback cases: only-latest forwarding, completion only after outer and "
+"latest inner completed). Also oracle-only: two overlapping subscriptions of one switched observable on a shared hot outer, each compared with a subscription alone "
+"on a fresh instance. Stale pushes after unsubscription are generated with 'rude' hot sources.")
 
 OPS = ["switch_latest", "switch_map", "switch_map_indexed", "flat_map_latest"]
 
@@ -40,15 +44,33 @@ OPS = ["switch_latest", "switch_map", "switch_map_indexed", "flat_map_latest"]
 def cases(rng, tier):
     n = fw.tier_scale(tier, 4000, 80000)
     for i in range(n):
-        yield cc.gen_ho_case(rng, OPS[i % len(OPS)], p_rude=0.5)
+        op = OPS[i % len(OPS)]
+        r = rng.random()
+        if r < 0.12:
+            # oracle-only: re-entrant switch through consumer feedback (a stale inner's notifications really reach the operator)
+            yield cc.gen_feedback_case(rng, op)
+            continue
+        c = cc.gen_ho_case(rng, op, p_rude=0.5)
+        if r < 0.22:
+            # oracle-only: two subscriptions of the same switched observable alive at the same time, fed by a shared hot outer
+            c["second"] = {"dispose1": cc.SUBSCRIBE_AT + 5 * rng.randint(8, 16), "sub2": cc.SUBSCRIBE_AT + 5 * rng.randint(1, 6)}
+            c["dispose"] = None
+            if c["outer"]["mode"] != "hot":
+                c["outer"] = {"mode": "hot", "msgs": [[cc.SUBSCRIBE_AT + m[0]] + m[1:] for m in c["outer"]["msgs"]]}
+        yield c
 
 
 def impl(case):
+    if "second" in case:
+        r = cc.run_second_subscriber(lambda: cc.ho_world_and_build(case)[:2], case["second"])
+        return {"second": r, "log": [], "split": cc.split_log([]), "idx": []}
     log, idx_seen = cc.run_ho(case)
     return {"split": cc.split_log(log, cc.sync_ids_of(case)), "log": log, "idx": idx_seen}
 
 
 def model_request(case):
+    if "second" in case or case.get("feedback"):
+        return None     # oracle-only (the flat trace machine does not model a source that is still inside its own subscribe)
     log, _ = cc.run_ho(case)
     sp = cc.split_log(log, cc.sync_ids_of(case))
     return {"op": "switch", "events": [e for _, e in sp["events"]]}
@@ -66,10 +88,13 @@ def canon_model(case, resp):
 
 def oracle(case, out):
     """walk the log with the property's own notions: `latest` = the most recently arrived inner"""
+    if "second" in out:
+        return cc.second_failure(case, out["second"], "not the elements of ITS latest inner")
     log = out["log"]
     got = cc.outputs(out["split"])
     if not cc.grammar_ok(got):
         return f"output is not next* terminal?: {got}"
+    feedback = bool(case.get("feedback"))
     latest = None
     latest_done = False
     outer_done = False
@@ -104,7 +129,7 @@ def oracle(case, out):
                         subs = [i for i, f in enumerate(step) if f[0] == "sub" and f[1] == latest]
                         if len(subs) != 1:
                             return f"inner {latest} arrived at {t} but was not subscribed in that step: {step}"
-                        if prev is not None and prev in open_subs:
+                        if prev is not None and prev in open_subs and not (feedback and cc_sync(case, prev)):
                             uns = [i for i, f in enumerate(step) if f[0] == "unsub" and f[1] == prev]
                             if len(uns) != 1 or uns[0] > subs[0]:
                                 return f"previous inner {prev} not unsubscribed before {latest} is subscribed at {t}: {step}"
@@ -132,7 +157,7 @@ def oracle(case, out):
     for e in log:
         if e[0] == "sub" and e[1] != 0:
             act.add(e[1])
-            if len(act) > 1:
+            if len(act) > 1 and not feedback:   # feedback: the previous inner may still be inside its own subscribe call
                 return f"two inner subscriptions open: {sorted(act)}"
         elif e[0] == "unsub" or (e[0] == "ev" and e[2][0] != "N"):
             act.discard(e[1])
@@ -147,12 +172,28 @@ def cc_sync(case, sid):
 
 
 def nontrivial(case, out):
+    if "second" in out:
+        return len(out["second"]["fresh"]) > 0
     log = out["log"]
     arrivals = len([1 for e in log if e[0] == "sub" and e[1] != 0])
     return arrivals >= 2 or any(e[0] == "ev" and e[1] != 0 and e[2][0] != "N" for e in log)
 
 
 def bucket(case, out):
+    if "second" in out:
+        yield "second_subscriber_overlapping"
+        return
+    if case.get("feedback"):
+        yield "feedback_reentrant_switch"
+        log_ = out["log"]
+        lat, stale_c = None, False
+        for e in log_:
+            if e[0] == "ev" and e[1] == 0 and e[2][0] == "N":
+                lat = e[2][1]
+            elif e[0] == "ev" and e[1] != 0 and e[1] != lat and e[2][0] == "C":
+                stale_c = True
+        if stale_c:
+            yield "feedback_stale_completion_delivered"
     sp = out["split"]
     log = out["log"]
     got = cc.outputs(sp)
